@@ -981,7 +981,14 @@ func ruleStepListLoops(r *Run) {
 	const rule = "R9a.steps"
 	n := 0
 	var fns []*ssa.Function
-	fns = append(fns, r.P.Funcs...)
+	// functions the gateway can execute: an exported helper nothing in the gateway calls
+	// (an accessor added for library users) has no influence on planning or responses
+	live := r.P.CG.ReachableAll([]*ssa.Function{r.P.Fn("pebbles.(*Gateway).Handler"), r.P.Fn("pebbles.NewGateway")})
+	for _, fn := range r.P.Funcs {
+		if live[fn] {
+			fns = append(fns, fn)
+		}
+	}
 	sort.Slice(fns, func(i, j int) bool { return fnName(fns[i]) < fnName(fns[j]) })
 	for _, fn := range fns {
 		for _, l := range stepListLoops(fn) {
